@@ -17,7 +17,8 @@
  *        a history on n initially empty splits.  ops:  O (close + parity_create again)   R<size> (parity_chsize)
  *        W<pos>:<seed> (parity_write of bytes (seed+j)&255)   D<pos> (parity_read)   T (parity_truncate)
  *        L<s>:<limit> (the growth limit of split s changes from now on: disk space freed / used up)
- *                                                -> one token per op (o | r<ret>[m<is_modified>] | w<ret> | d<hex>|d-1 | t<ret> | l) then
+ *                                                -> one token per op (o | r<ret>[m<is_modified>][~] | w<ret> | d<hex>|d-1 | t<ret> | l) then
+ *                                                   ("~": before this resize some split file did not have its recorded size, e.g. after T)
  *                                                   "|" {<recorded>:<hex of the file>}*n     ("-" for an empty file)
  *        the history stops at the first failing R (the tool exits there).
  */
@@ -237,13 +238,19 @@ static void cmd_ops(char* rest)
 		case 'R' : {
 			long long size = strtoll(tok + 1, 0, 10);
 			int mod = -1, ret;
+			int wf = 1; /* every split file has its recorded size (hypothesis `wf` of the refinement theorems) */
+			for (s = 0; s < n; ++s) {
+				struct stat sb;
+				if (stat(par.split_map[s].path, &sb) != 0 || (long long)sb.st_size != (long long)par.split_map[s].size)
+					wf = 0;
+			}
 			jb_armed = 1;
 			if (sigsetjmp(jb, 1) == 0)
 				ret = parity_chsize(&hnd, &par, &mod, size, bs, skipf, 0);
 			else
 				ret = -2;
 			jb_armed = 0;
-			if (ret == 0) printf("r0m%d ", mod);
+			if (ret == 0) printf("r0m%d%s ", mod, wf ? "" : "~");
 			else { printf("r%d ", ret); stop = 1; }
 			break;
 		}
